@@ -218,6 +218,10 @@ def _norm(res):
     return res if res[0] == "ok" else ("exc", res[0] if res[0] == "hang" else res[1], res[2] if len(res) > 2 else "")
 
 
+def _int(x):
+    return x if isinstance(x, int) and not isinstance(x, bool) else H.Unknown(x)
+
+
 def _canon(x):
     return x.r if isinstance(x, H.Unknown) else x
 
@@ -234,7 +238,6 @@ def run_impl(case):
     if case.get("label") == "iter":                       # round-1 replay files
         nk = bk = "iter"
     big = bool(case.get("big"))
-    need = int(case.get("depth", 0)) if big else 0
     adj_nat = {u: ws for u, ws in case["adj"]}
     adj = {f(u): [f(w) for w in ws] for u, ws in case["adj"]}            # the caller's own objects
     nodes = [f(v) for v in case["nodes"]]
@@ -287,8 +290,9 @@ def run_impl(case):
             def call():
                 r = fn(n, es if be == "python" else es_t, backend=be)
                 if key == "comps":
-                    return r, {"status": r.status.name, "objective": r.objective, "comps": [list(c) for c in r.solution]}
-                return r, {"status": r.status.name, "objective": r.objective, "order": None if r.solution is None else list(r.solution)}
+                    return r, {"status": r.status.name, "objective": r.objective, "comps": [[_int(x) for x in c] for c in r.solution]}
+                return r, {"status": r.status.name, "objective": r.objective,
+                           "order": None if r.solution is None else [_int(x) for x in r.solution]}
             return call
 
         calls += [("scc_e", mk_e(strongly_connected_components_edges, "comps", "python")),
@@ -301,10 +305,7 @@ def run_impl(case):
                           ("topo_e2", mk_e(topological_sort_edges, "order", be))]
 
     def one(fn):
-        def go():
-            (raw, can), _ = H.with_depth(need, fn) if need else (fn(), False)
-            return raw, can
-        res = guarded(go, timeout=20 if big else 5)
+        res = guarded(fn, timeout=20 if big else 5)       # deep instances run under the interpreter's default recursion limit
         if res[0] == "ok":
             return res[1][0], ("ok", res[1][1])
         return None, _norm(res)
@@ -473,13 +474,21 @@ def judge(case, outs):
     """[(which, description)] of property failures of the implementation on this case."""
     bad = [("alias", a) for a in outs.get("alias", [])]
     if case.get("big") or len(set(case["nodes"])) > SMALL_ORACLE_N:
-        return bad + H.big_judge(case, outs)
+        try:
+            return bad + H.big_judge(case, outs)
+        except AssertionError:
+            raise
+        except Exception as e:  # noqa: BLE001
+            return bad + [("scc", f"malformed result on {case.get('family')} ({type(e).__name__}: {e})")]
     for which, res in outs.items():
         if which == "alias":
             continue
         if which.startswith("topo") and has_dup_nodes(case):
             continue                                  # property read for duplicate-free node iterables (noted)
-        d = _unknown(res) or ORACLES[which](case, res)
+        try:
+            d = _unknown(res) or ORACLES[which](case, res)
+        except Exception as e:  # noqa: BLE001   (an output the oracle cannot even read is not a valid answer)
+            d = f"malformed result {str(res)[:200]} ({type(e).__name__}: {e})"
         if d:
             bad.append((which, d))
     return bad
@@ -592,8 +601,8 @@ def run(ctx: Ctx):
                 "iterable kinds (list/tuple/iterator/generator/dict view/range) for nodes and neighbour lists, the *_edges variants with "
                 "list/tuple edge containers and backend python/None/auto/rust; every function is called again in the opposite order "
                 "after the caller modified the first results, inputs compared with deep copies; ~35 structured large instances "
-                "(chains/cycles of 17..3000 nodes incl. 802 and 1025+, stars and parallel edges up to 65537, 2049 isolated nodes, "
-                "layered DAGs, one random 3000-node graph) judged by construction and by an iterative Kosaraju reference; "
+                "(chains/cycles of 17..5000 nodes incl. 802 and 1025+, stars / parallel edges / late predecessors with in-degree up to 65537, "
+                "2049 isolated nodes, layered DAGs, one random 3000-node graph) judged by construction and by an iterative Kosaraju reference; "
                 "24 internal events of an instrumented port are counted and rare ones searched for; non-trivial = >=3 distinct "
                 "nodes and an in-set edge between two different nodes; distinct = canonical JSON of (nodes, adjacency)")
     ctx.proof_step(["C14"])
@@ -604,8 +613,8 @@ def run(ctx: Ctx):
     ctx.notes.append(f"Coq correspondence on cases with <= {COQ_MAX_N} nodes and <= {COQ_MAX_E} edges; Coq spec checkers on cases with <= {SPEC_MAX_N} "
                      f"distinct nodes (cost ~n^5); brute-force closure oracle up to {SMALL_ORACLE_N} nodes, above that an independent linear-time "
                      "reference (iterative Kosaraju) + answers known by construction")
-    ctx.notes.append("deep instances: the interpreter recursion limit is raised only when the default would not suffice for the DFS path "
-                     "(as the module docstring of solvor/scc.py tells callers to do); instances of depth 802..~940 run under the default limit")
+    ctx.notes.append("deep instances (DFS paths of 802..5000 nodes, thorough 20000) run under the interpreter's DEFAULT recursion limit: since "
+                     "60ff76e the code raises the limit itself; a RecursionError is judged as a failure")
     ctx.notes.append("backend None/auto/rust of the *_edges variants are judged by the property (oracle) only; equivalence of back-ends is C12")
     ctx.notes.append("general theorems (Props/C14.v) are about the Gallina model; the model is tied to /repo by the correspondence lemmas of "
                      "this run; in addition the sound Coq checkers scc_check/topo_check/cond_check are evaluated in the kernel on the "
@@ -637,7 +646,11 @@ def run(ctx: Ctx):
     for k in H.EVENTS:
         ctx.count("event_cases", k, seen_ev[k])
     cases += H.big_cases(ctx.rng, big)
+    import time as _t
+    _t0 = _t.time()
     outs = pmap(_work, cases)
+    ctx.extra["phase_s"] = {"generate+events": round(_t0 - ctx.t0, 1), "implementation": round(_t.time() - _t0, 1)}
+    _t1 = _t.time()
 
     # open known findings of this class (none unless the coordinator lists one)
     open_ids = [f["id"] for f in ctx.open_findings() if f.get("class") == FINDING_CLASS]
@@ -693,9 +706,18 @@ def run(ctx: Ctx):
             small = shrink(case, lambda c: any(w == which for w, _ in judge(c, run_impl(c))))
             o2 = run_impl(small)
             d2 = [d for w, d in judge(small, o2) if w == which]
-            ctx.violation(f"{which}: {d2[0] if d2 else desc}",
-                          {"case": small, "function": which, "impl": o2.get(which), "original_case": case})
+            how = ""
+            if small.get("label") == "pool":
+                used = set(all_ids(small))
+                how = " [node labels: " + ", ".join(f"{i} is {H.mk(sp)!r}" for i, sp in small["labels"] if i in used) + "]"
+            elif small.get("label", "int") != "int":
+                how = f" [node labels: {small['label']}]"
+            how += f" [nodes passed as {small.get('nodes_kind', 'list')}, neighbours as {small.get('nbr_kind', 'list')}]"
+            ctx.violation(f"{which}: {d2[0] if d2 else desc}{how}",
+                          {"case": small, "function": which, "impl": str(o2.get(which))[:500], "original_case": case})
     ctx.count("cases_violating_oracle", n_bad)
+    ctx.extra["phase_s"]["oracle"] = round(_t.time() - _t1, 1)
+    _t2 = _t.time()
 
     # ---- kernel-checked correspondence model vs implementation + Coq spec checkers on both outputs
     disagree = {}
@@ -709,43 +731,38 @@ def run(ctx: Ctx):
                if len(c["nodes"]) <= COQ_MAX_N and sum(len(ws) for _, ws in c["adj"]) <= COQ_MAX_E]
     ctx.count("coq_correspondence_cases", len(all_idx), 1)
     gn = {i: f"({c_graph(cases[i])}, {clist(cases[i]['nodes'])})" for i in all_idx}
-    chk("scc", "(graph * list nat) * option (list (list nat))",
-        "fun c => scc_obs_eqb (scc (fst (fst c)) (snd (fst c))) (snd c)",
-        [f"({gn[i]}, {c_scc_obs(outs[i]['scc'])})" for i in all_idx], all_idx)
-    chk("topo", "(graph * list nat) * option (option (list nat))",
-        "fun c => topo_obs_eqb (topological_sort (fst (fst c)) (snd (fst c))) (snd c)",
-        [f"({gn[i]}, {c_topo_obs(outs[i]['topo'])})" for i in all_idx], all_idx)
-    chk("cond", "(graph * list nat) * option (list (list nat) * list (list nat))",
-        "fun c => cond_obs_eqb (condense (fst (fst c)) (snd (fst c))) (snd c)",
-        [f"({gn[i]}, {c_cond_obs(outs[i]['cond'])})" for i in all_idx], all_idx)
+    T3 = "(graph * list nat) * (option (list (list nat)) * (option (option (list nat)) * option (list (list nat) * list (list nat))))"
+
+    def c3(i):
+        return f"({gn[i]}, ({c_scc_obs(outs[i]['scc'])}, ({c_topo_obs(outs[i]['topo'])}, {c_cond_obs(outs[i]['cond'])})))"
+
+    # correspondence: the three call-back functions in one kernel-checked lemma per shard
+    chk("corr", T3,
+        "fun c => let g := fst (fst c) in let ns := snd (fst c) in "
+        "scc_obs_eqb (scc g ns) (fst (snd c)) && topo_obs_eqb (topological_sort g ns) (fst (snd (snd c))) "
+        "&& cond_obs_eqb (condense g ns) (snd (snd (snd c)))",
+        [c3(i) for i in all_idx], all_idx)
     ev = [i for i in all_idx if cases[i].get("edges_variant") and "scc_e" in outs[i]]
-    chk("scc_edges", "(nat * list (nat * nat)) * option (list (list nat))",
-        "fun c => scc_obs_eqb (scc_edges (fst (fst c)) (snd (fst c))) (snd c)",
-        [f"(({len(cases[i]['nodes'])}, {c_edges(cases[i])}), {c_scc_obs(outs[i]['scc_e'])})" for i in ev], ev)
-    chk("topo_edges", "(nat * list (nat * nat)) * option (option (list nat))",
-        "fun c => topo_obs_eqb (topo_edges (fst (fst c)) (snd (fst c))) (snd c)",
-        [f"(({len(cases[i]['nodes'])}, {c_edges(cases[i])}), {c_topo_obs(outs[i]['topo_e'])})" for i in ev], ev)
+    chk("corr_edges", "(nat * list (nat * nat)) * (option (list (list nat)) * option (option (list nat)))",
+        "fun c => scc_obs_eqb (scc_edges (fst (fst c)) (snd (fst c))) (fst (snd c)) "
+        "&& topo_obs_eqb (topo_edges (fst (fst c)) (snd (fst c))) (snd (snd c))",
+        [f"(({len(cases[i]['nodes'])}, {c_edges(cases[i])}), ({c_scc_obs(outs[i]['scc_e'])}, {c_topo_obs(outs[i]['topo_e'])}))" for i in ev], ev)
     # spec checkers (independent of the model) on the implementation's outputs, and on the model's outputs
     # (the closure-based checkers cost ~n^5: evaluated in Coq for graphs with <= SPEC_MAX_N nodes; larger graphs are
     #  judged by the Python oracle and the correspondence only)
     small = [i for i in all_idx if len(set(cases[i]["nodes"])) <= SPEC_MAX_N]
-    nd = [i for i in small if not has_dup_nodes(cases[i])]
     ctx.count("coq_spec_checked_cases", len(small), 1)
-    chk("spec_scc_impl", "(graph * list nat) * option (list (list nat))",
-        "fun c => ocheck (scc_check (fst (fst c)) (snd (fst c))) (snd c)",
-        [f"({gn[i]}, {c_scc_obs(outs[i]['scc'])})" for i in small], small)
-    chk("spec_topo_impl", "(graph * list nat) * option (option (list nat))",
-        "fun c => ocheck (topo_check (fst (fst c)) (snd (fst c))) (snd c)",
-        [f"({gn[i]}, {c_topo_obs(outs[i]['topo'])})" for i in nd], nd)
-    chk("spec_cond_impl", "(graph * list nat) * option (list (list nat) * list (list nat))",
-        "fun c => ocheck (fun o => scc_check (fst (fst c)) (snd (fst c)) (fst o) && cond_check (fst (fst c)) (snd (fst c)) o) (snd c)",
-        [f"({gn[i]}, {c_cond_obs(outs[i]['cond'])})" for i in small], small)
-    chk("spec_model", "graph * list nat",
-        "fun c => ocheck (scc_check (fst c) (snd c)) (scc (fst c) (snd c)) "
-        "&& (negb (nodupb (snd c)) || ocheck (topo_check (fst c) (snd c)) (topological_sort (fst c) (snd c))) "
-        "&& ocheck (cond_check (fst c) (snd c)) (condense (fst c) (snd c))",
-        [gn[i] for i in small], small)
+    chk("spec", T3,
+        "fun c => let g := fst (fst c) in let ns := snd (fst c) in "
+        "ocheck (scc_check g ns) (fst (snd c)) "
+        "&& (negb (nodupb ns) || ocheck (topo_check g ns) (fst (snd (snd c)))) "
+        "&& ocheck (fun o => scc_check g ns (fst o) && cond_check g ns o) (snd (snd (snd c))) "
+        "&& ocheck (scc_check g ns) (scc g ns) "
+        "&& (negb (nodupb ns) || ocheck (topo_check g ns) (topological_sort g ns)) "
+        "&& ocheck (cond_check g ns) (condense g ns)",
+        [c3(i) for i in small], small)
     ctx.traces_validated += len(all_idx)
+    ctx.extra["phase_s"]["coq"] = round(_t.time() - _t2, 1)
     ctx.count("cases_disagreeing_with_model_or_spec", len(disagree))
 
     # ---- disagreement / broken proof without an oracle failure: search, then report
